@@ -12,6 +12,7 @@ pub fn story_to_json_string(
     count_all_visits: bool,
 ) -> Result<String, CompilerError> {
     let json = story_to_json_value(story, count_all_visits)?;
+    crate::references::check(&json)?;
     serde_json::to_string(&json).map_err(|error| {
         CompilerError::invalid_source(format!("failed to serialize compiled ink: {error}"))
     })
